@@ -37,6 +37,7 @@ func checkC01(p *Prog, r *Report) {
 	r.rule("C01.S8", "Recv copies a segment's data into the caller's buffer and advances by its length before recycling it", 1)
 	r.rule("C01.S9", "WriteBuffers hands kcp.Send pieces of at most mss bytes and continues exactly where the piece ended; n counts each input slice once", 2)
 	r.rule("C01.S10", "bufptr is assigned only recvbuf[n:] / bufptr[n:] with n the result of the copy just made; a Read takes at most one message from the core", 3)
+	r.rule("C01.S18", "message boundaries and content survive FEC recovery and a full queue: a recovered packet's payload is copied into its own pool buffer before it is kept (= C15.O4), and PeekSize reports a message exactly when all its fragments are queued — never a partial one (= C02.A15)", 2)
 	r.rule("C01.S17", "what Write reports is what was queued: in WriteBuffers every return that can follow a kcp.Send returns the running count of queued bytes (the local increased by len(b) per buffer), never a constant; and since WriteBuffers does not look at Send's result, KCP.Send refuses (negative return) only for reasons visible in its argument — the empty buffer and the fragment count — never for connection state", 3)
 	r.rule("C01.S16", "no empty message enters the send queue: KCP.Send refuses len(buffer) == 0 unconditionally before it queues anything — the session reader acts on PeekSize() > 0 only, so a zero-length message at the head of the peer's delivery queue is never consumed and everything written after it is stuck behind it", 1)
 	r.rule("C01.S15", "the reader's carry-over bytes stay owned: a buffer that bufptr (or another field) points into is never handed back to the pool without clearing that pointer (= C15.O6)", 0)
@@ -435,6 +436,8 @@ func checkC01(p *Prog, r *Report) {
 	checkCoreCutting(p, r)
 	checkEmptySendRefused(p, r, "C01.S16")
 	checkWriteAccounting(p, r)
+	delegate(p, r, "C15", checkC15, "C15.O4", "C01.S18")
+	checkPeekSizeReadiness(p, r, "C01.S18")
 	checkSessionChunking(p, r)
 	checkReadCarryOver(p, r)
 
